@@ -132,6 +132,12 @@ def run(R):
         r3(R, m)
     if R.want("C16.R4"):
         r4(R)
+    if R.want("C16.R5"):
+        # the users of the reduction (refinegrains.makeuniq, point_by_point) install the canonical matrix through grain.set_ubi:
+        # a direct write of <grain>.ubi leaves U / UB / B / Rod of the previous orbit member in the caches.  Shared with C04.R1.
+        from engine import report
+        from rules import c04
+        c04.r1(report.Alias(R, {"C04.R1": "C16.R5"}))
 
 
 def generators_of(m, name):
